@@ -759,6 +759,9 @@ def run(ctx: Ctx) -> None:
     _c12.r12_6(ctx, rule="R04.11")  # testzip must give its verdict for stream archives too
     from . import c06 as _c06x
     _c06x.dispatch_forwards_skip(ctx, "R04.10")
+    _c06x.r06_3(ctx)  # the flag Header._read keys the packed header's CRC comparison on is set wherever the folder CRC is stored
+    from . import c09 as _c09x
+    _c09x.r09_4(ctx)  # testzip registers no targets: a folder skipped although skip_notarget is off is a folder certified unread
     shared.exits_do_not_swallow(ctx, "R04.9")
     r04_7(ctx)
     r04_8(ctx)
